@@ -38,7 +38,7 @@ package pruner
 //@ extern func go.uber.org/zap.Uint64
 //@ extern func go.uber.org/zap.Duration
 //@ func (*Pruner).pruneUpto
-//@   props C16
+//@   props C16 C03 C05
 //@   arith int
 //@   nosafe
 //@   logged
